@@ -142,7 +142,7 @@ func checkC09(w *World) {
 	docRule(P, "R09.2", "X+T K", "token switch of the XML pull adapter: StartElement, CharData, Comment, ProcInst each return a value whose type implements exactly the corresponding node interface, with the end flag false; the end flag is returned true only when no arm matched (EndElement; Directive is allow-listed: well-formed documents have directives only at depth 0 where the store absorbs a surplus end).")
 	docRule(P, "R09.3", "D", "replay order required by the Parser contract: the next token is pulled only when the pending namespace list and the pending attribute list are drained; pending attributes are returned only when the pending namespaces are drained.")
 	docRule(P, "R09.4", "F+D", "error discipline: the error of Decoder.Token() is returned unchanged with a nil node; in the store the only error mapped to a nil return is one for which errors.Is(err, io.EOF) holds, every other non-nil error is returned; CreateInMemory and xsel.ReadXml/ReadHtml/ReadJson return it to the caller.")
-	docRule(P, "R09.5", "F", "declared encodings: a non-nil CharsetReader is assigned to the xml.Decoder before the decoder is stored in the parser.")
+	docRule(P, "R09.5", "F", "declared encodings: the xml.Decoder gets a CharsetReader that resolves the declared label with charset.NewReaderLabel (unknown labels are errors) and never falls back to content sniffing (charset.NewReader / DetermineEncoding).")
 
 	pull := w.method("parser", "xmlParser", "Pull")
 	if pull == nil {
@@ -366,7 +366,21 @@ func checkC09(w *World) {
 		}
 		w.check(P, "R09.2", "end event", ret.Pos(), failed == 4 && isNilConst(ret.Results[0]) && isNilConst(ret.Results[2]), fmt.Sprintf("end flag true is returned after %d of the 4 node-producing arms failed", failed))
 	})
-	w.floor(P, "R09.2", 5)
+	// every successful return is either (node, false) or (nil, true)
+	allInstrs(pull, func(in ssa.Instruction) {
+		ret, ok := in.(*ssa.Return)
+		if !ok || len(ret.Results) != 3 || !isNilConst(ret.Results[2]) {
+			return
+		}
+		c, isC := ret.Results[1].(*ssa.Const)
+		if !isC || c.Value == nil {
+			return
+		}
+		end := c.Value.String() == "true"
+		nilNode := isNilConst(ret.Results[0])
+		w.check(P, "R09.2", "event shape of a successful return", ret.Pos(), end == nilNode, fmt.Sprintf("node is nil: %v, end flag: %v (a nil node that is not an end event becomes a child whose Node() is nil; a node with the end flag set is lost)", nilNode, end))
+	})
+	w.floor(P, "R09.2", 9)
 
 	// R09.3 replay order
 	w.replayOrder(P, pull)
@@ -380,6 +394,7 @@ func checkC09(w *World) {
 		w.undecided(P, "R09.5", "parser.ReadXml", 0, "not found")
 	} else {
 		ok := false
+		csDetail := "no non-nil CharsetReader is installed (without it every document that declares an encoding other than UTF-8 fails)"
 		allInstrs(rx, func(in ssa.Instruction) {
 			st, isSt := in.(*ssa.Store)
 			if !isSt {
@@ -399,12 +414,42 @@ func checkC09(w *World) {
 			}
 			stt := n.Underlying().(*types.Struct)
 			if stt.Field(fa.Field).Name() == "CharsetReader" && !isNilConst(st.Val) {
-				ok = true
+				// the value must be charset.NewReaderLabel (errors on unknown labels) or a package-local
+				// function that reaches it and no content-sniffing fallback
+				var target *ssa.Function
+				switch v := stripConv(st.Val).(type) {
+				case *ssa.Function:
+					target = v
+				case *ssa.MakeClosure:
+					target, _ = v.Fn.(*ssa.Function)
+				}
+				if target != nil {
+					reachesLabel, sniff := funcFullName(target) == "golang.org/x/net/html/charset.NewReaderLabel", false
+					if inRepo(target) {
+						for g := range staticReach(target, func(x *ssa.Function) bool { return true }) {
+							switch funcFullName(g) {
+							case "golang.org/x/net/html/charset.NewReaderLabel":
+								if g != target {
+									reachesLabel = true
+								}
+							case "golang.org/x/net/html/charset.NewReader", "golang.org/x/net/html/charset.DetermineEncoding":
+								sniff = true
+							}
+						}
+						if sniff {
+							reachesLabel = false
+						}
+					}
+					ok = reachesLabel
+					csDetail = fmt.Sprintf("CharsetReader = %s; resolves declared labels with charset.NewReaderLabel (unknown encodings are an error): %v; falls back to content sniffing: %v", target.Name(), reachesLabel, sniff)
+				}
 			}
 		})
-		w.check(P, "R09.5", "xml.Decoder.CharsetReader", rx.Pos(), ok, fmt.Sprintf("a non-nil CharsetReader is installed: %v (without it every document that declares an encoding other than UTF-8 fails)", ok))
+		w.check(P, "R09.5", "xml.Decoder.CharsetReader", rx.Pos(), ok, csDetail)
 	}
 	w.floor(P, "R09.5", 1)
+	// namespace nodes belong to their element: ownership rules of the store
+	w.include(P, "C10", "R10.5")
 }
 
 // replayOrder: the decoder call is guarded by both pending lists being drained.
